@@ -318,6 +318,15 @@ def engine(pid, spec, tier, ws, out, log_dir, known):
             findings += f
             npaths += n
             e2.functions.append("the serde_workaround!-generated visit_map bodies (end-of-map resolution of every member)")
+            srcs = {}
+            for rel in ("passkey-types/src/ctap2/get_assertion.rs", "passkey-types/src/ctap2/make_credential.rs", "passkey-types/src/ctap2/get_info.rs",
+                        "passkey-types/src/ctap2/extensions/hmac_secret.rs"):
+                fp = os.path.join(e2.ws.ws, rel)
+                if os.path.exists(fp):
+                    srcs[rel] = open(fp).read()
+            f, n = C.check_member_order(srcs)
+            findings += f
+            npaths += n
         if "base64" in todo:
             tf = e2.mir_of("passkey-types")
             f, n = C.check_base64_wrappers(tf)
@@ -382,7 +391,7 @@ def engine(pid, spec, tier, ws, out, log_dir, known):
             if "client_" + kind in todo:
                 cf = e2.mir_of("passkey-client")
                 f, n_ok, n_all, name = C.check_client(cf, e2.ctx, kind)
-                findings += f
+                findings += [x for x in f if x.prop == pid]
                 npaths += n_all
                 e2.functions.append("passkey-client " + name)
                 f, n = C.check_origin_rendering(cf)
@@ -433,6 +442,15 @@ def engine(pid, spec, tier, ws, out, log_dir, known):
             e2.functions.append("<Arc<tokio::sync::Mutex<S>> / Arc<tokio::sync::RwLock<S>> as CredentialStore>::{find_credentials, update_credential} (MIR)")
             if note:
                 out.extra["e2_note"] = note
+            # "every successful registration's credential is present afterwards": a registration is one save_credential call (one atomic
+            # step through the wrappers); it must not report success unless that call was made and accepted
+            mps = e2.feasible(e2.run_paths("mc", "authenticator::make_credential", "make_credential::{closure#0}"))
+            npaths += len(mps)
+            f7, _ = C.check_make_credential(mps, e2.ctx, {"C07"})
+            for x in f7:
+                if x.role in ("mc.ok-without-accepted-save", "mc.ok-without-save", "mc.save-error-not-propagated"):
+                    findings.append(C.Finding("C19", "registration." + x.role[3:], "shared store: " + x.text, x.scenario, x.predicate, x.path))
+            e2.functions.append("Authenticator::make_credential::{closure#0} (success only after an accepted save_credential)")
         if "forwarding" in todo:
             for method in ("get_info", "make_credential", "get_assertion"):
                 name = e2.find_fn("ctap2::<impl", "::%s::{closure#0}" % method)
